@@ -49,12 +49,15 @@ type Runner struct {
 	// KnownHits: violations that match a listed known finding (recorded, the
 	// history goes on)
 	KnownHits map[string]Viol
+	// PruneRewindAt: first step after which a rewinding seek met deliveries a
+	// prune job may have removed (documented, by-design difference), or -1
+	PruneRewindAt int
 	// NoModel: run without oracles (twin runs only need the trace)
 	step int
 }
 
 func NewRunner(s *sut.SUT, armed ...string) *Runner {
-	r := &Runner{S: s, M: NewModel(), Ctx: context.Background()}
+	r := &Runner{S: s, M: NewModel(), Ctx: context.Background(), PruneRewindAt: -1}
 	if len(armed) > 0 {
 		r.Armed = map[string]bool{}
 		for _, a := range armed {
@@ -249,6 +252,11 @@ func (r *Runner) Step(op Op) bool {
 			te.Pull, te.N = pullTrace(res.Returned), len(resp.ReceivedMessages)
 			if res.Truncated {
 				te.Info = "truncated"
+			} else if !res.Det {
+				te.Info = "nondet"
+			}
+			if r.PruneRewindAt < 0 && m.C["limbo-by-prune-then-rewind"] > 0 {
+				r.PruneRewindAt = r.step
 			}
 			r.report(viols)
 		}
@@ -313,6 +321,9 @@ func (r *Runner) Step(op Op) bool {
 		}
 		if r.expect(op, want, err) {
 			m.SeekTime(op.S, t, now)
+			if r.PruneRewindAt < 0 && m.C["limbo-by-prune-then-rewind"] > 0 {
+				r.PruneRewindAt = r.step
+			}
 		}
 
 	case OpSeekSnap:
@@ -320,6 +331,9 @@ func (r *Runner) Step(op Op) bool {
 		te.Target, te.Code = op.S, status.Code(err).String()
 		if r.expect(op, m.ExpectSeekSnap(op.S, op.N), err) {
 			m.SeekSnap(op.S, op.N, now)
+			if r.PruneRewindAt < 0 && m.C["limbo-by-prune-then-rewind"] > 0 {
+				r.PruneRewindAt = r.step
+			}
 		}
 
 	case OpSnapshot:
